@@ -446,6 +446,27 @@ class BitEval:
                     return Top(f"truth of truncated bits: {atom[1]}")
             if any(a == ("one",) for _, _, a in v.fields):
                 return True
+            # a value made of several fields is truthy when one of them is: decide field by field, splitting the region on the first
+            # field it does not settle (bool(a | b) is bool(a) or bool(b) for fields that do not overlap)
+            if all(a[0] in ("pred", "npred", "src") for _, _, a in v.fields):
+                undecided = None
+                for lo_, w_, a in v.fields:
+                    one = Bits([(0, w_, a)]) if hasattr(Bits, "__init__") else None
+                    try:
+                        tv = self.truth(one)
+                    except (NeedSplit, NeedPred) as ex:
+                        undecided = undecided or ex
+                        continue
+                    if tv is True:
+                        return True
+                    if tv is not False:
+                        if isinstance(tv, Pred):
+                            undecided = undecided or NeedPred(tv.text)
+                        else:
+                            return Top(f"truth of a multi-field value {v}")
+                if undecided is None:
+                    return False
+                raise undecided
             return Top(f"truth of a multi-field value {v}")
         if isinstance(v, LinV):
             lo, hi = self.lin_range(v)
@@ -626,6 +647,12 @@ class BitEval:
                     return tv if t[1] != "==" else (not tv)
                 if isinstance(tv, Pred):
                     return tv if t[1] != "==" else Pred(tv.text, not tv.neg)
+            if t[1] in ("is", "is not", "==", "!=") and (l_ == ("const", None) or r_ == ("const", None)):
+                # None test: a value of the domain (number / bits / predicate) is not None; None is
+                other = self.ev(r_ if l_ == ("const", None) else l_)
+                if isinstance(other, Top):
+                    return other
+                return (other is None) == (t[1] in ("is", "=="))
             return self.compare(t[1], self.ev(t[2]), self.ev(t[3]))
         if k == "bool":
             vals = [self.truth(self.ev(x)) for x in t[2]]
